@@ -19,7 +19,7 @@ func mcSkip(c *Ctx, quickCfg string) {
 }
 
 func checkC02(c *Ctx) {
-	c.rule = "MC: over every byte string up to MaxLen over a grammar alphabet and every type, the reference grammar is self-delimiting (extent independent of trailing bytes; every strict prefix short). TRACE: one case = (typed value tree of a given type + trailing bytes); all 11x11 map and 11 list/set element combinations x counts 0,1,2,7; nesting 1..63 of every container kind; seeded random trees (depth<=5, strings up to 72KB); each is fed to the five skippers under bytes-backed, fitting, 1-byte, zero-byte and data+EOF source shapes; TLC computes the reference extent and judges success, length, returned bytes and source position. Containers of fixed-size elements of 4 GiB and more are skipped from a lazily mapped buffer and compared with the extent formula in Go. LIVE CONNECTIONS: every stream skipper also runs on an exact-demand source (the value's bytes have arrived, nothing more; a Read after the last byte is over-demand and rejected) and the ReaderSkipDecoder (fresh and pooled) on a connection-like source whose Len / Buffered / Available report what is readable right now. STACK-RESIDENT INPUTS: thrift.Binary.Skip also runs on every input (up to 1536 bytes) copied into a local array on a fresh goroutine that starts with the minimum stack, with goroutines parked on stacks of various sizes, so that the recursion has to move the stack (and the input) while skipping; deep chains cut short are part of the inputs."
+	c.rule = "MC: over every byte string up to MaxLen over a grammar alphabet and every type, the reference grammar is self-delimiting (extent independent of trailing bytes; every strict prefix short). TRACE: one case = (typed value tree of a given type + trailing bytes); all 11x11 map and 11 list/set element combinations x counts 0,1,2,7; nesting 1..63 of every container kind; seeded random trees (depth<=5, strings up to 72KB); each is fed to the five skippers under bytes-backed, fitting, 1-byte, zero-byte and data+EOF source shapes; TLC computes the reference extent and judges success, length, returned bytes and source position. Containers of fixed-size elements of 4 GiB and more are skipped from a lazily mapped buffer and compared with the extent formula in Go. LIVE CONNECTIONS: every stream skipper also runs on an exact-demand source (the value's bytes have arrived, nothing more; a Read after the last byte is over-demand and rejected) and the ReaderSkipDecoder (fresh and pooled) on a connection-like source whose Len / Buffered / Available report what is readable right now. STACK-RESIDENT INPUTS: thrift.Binary.Skip also runs on every input (up to 1536 bytes) copied into a local array on a fresh goroutine that starts with the minimum stack, with goroutines parked on stacks of various sizes, so that the recursion has to move the stack (and the input) while skipping; deep chains cut short are part of the inputs. The giant-value monitor also skips strings of 2^30+1 .. 2^31-1 bytes that are really present, bare, in a list and in a struct. A sixth skipper (the exported template over a foreign SkipN that reuses one scratch window) runs on every input."
 	mcSkip(c, "MC_ThriftSkip_small.cfg")
 	c.TraceCheck(famSkipC02, wellFormedSkipCases(c, c.Pick(4000, 60000), 2))
 	// sessions: one decoder / reader instance skips 2..6 consecutive values (state carried between calls,
@@ -132,7 +132,7 @@ func checkC08(c *Ctx) {
 
 func checkC17(c *Ctx) {
 	c.MC("MC_ThriftWire.tla", "MC_ThriftWire.cfg", 4)
-	c.rule = "MC: grammar causes (ThriftSkip) and decoder causes incl. all 65536 version words (ThriftWire). TRACE: the hostile inputs of C08 plus hostile scalar/header/string/message-begin inputs; for every failing thrift.Binary call TLC derives the cause set from the reference grammar and requires TypeId() in {TypeIdOf(cause)}; for stream skippers whose only admissible cause is truncation it requires errors.Is(err, source error). STACK-RESIDENT INPUTS: thrift.Binary.Skip also runs on every input (up to 1536 bytes) copied into a local array on a fresh goroutine that starts with the minimum stack, with goroutines parked on stacks of various sizes, so that the recursion has to move the stack (and the input) while skipping; deep chains cut short are part of the inputs. Source errors also include values that are not io.EOF but answer errors.Is(err, io.EOF) (%w-wrapped EOF, *net.OpError{Err: io.EOF}, a type with an Is method)."
+	c.rule = "MC: grammar causes (ThriftSkip) and decoder causes incl. all 65536 version words (ThriftWire). TRACE: the hostile inputs of C08 plus hostile scalar/header/string/message-begin inputs; for every failing thrift.Binary call TLC derives the cause set from the reference grammar and requires TypeId() in {TypeIdOf(cause)}; for stream skippers whose only admissible cause is truncation it requires errors.Is(err, source error). STACK-RESIDENT INPUTS: thrift.Binary.Skip also runs on every input (up to 1536 bytes) copied into a local array on a fresh goroutine that starts with the minimum stack, with goroutines parked on stacks of various sizes, so that the recursion has to move the stack (and the input) while skipping; deep chains cut short are part of the inputs. Source errors also include values that are not io.EOF but answer errors.Is(err, io.EOF) (%w-wrapped EOF, *net.OpError{Err: io.EOF}, a type with an Is method). Errors handed out by a stream reader are kept and looked at again after the reader failed once more, was recycled, and its next owner failed."
 	mcSkip(c, "MC_ThriftSkip_small.cfg")
 	c.TraceCheck(famSkipC17, hostileSkipCases(c, c.Pick(120, 2500), 17))
 	// thrift.Binary readers and message-begin (buffer: type id by cause) and the stream reader
